@@ -352,6 +352,18 @@ theorem sort_temporaries_destroyed [DecidableEq α] (lt : α → α → Bool) (h
 example : (qsortListT (fun a b : Int => decide (a < b)) [3, 1, 2] ⟨3, 0, 0, 3⟩).map (fun r => (r.1, r.2.live, decide (0 < r.2.made), decide (r.2.made = r.2.freed)))
     = some ([1, 2, 3], 3, true, true) := by decide
 
+/-- **at most `log2 n + 1` temporaries exist at any moment of `sort`**: with `n < 2 ^ (d + 1)` elements the instance
+counter never exceeds its starting value by more than `d + 1` (one pivot per nesting level — the nested call is on the
+smaller part, code after dff9640 — plus one `swap` temporary), for every comparison. -/
+theorem sort_temporaries_bounded (lt : α → α → Bool) (l l' : List α) (t t' : Tmp) (d : Nat)
+    (h : qsortListT lt l t = some (l', t')) (hn : l.length < 2 ^ (d + 1)) (hp : t.peak = t.live) :
+    t'.peak ≤ t.live + d + 1 :=
+  qsortListT_peak lt h d _ hn (by omega) (Int.le_refl _)
+
+/-- the hypotheses are satisfiable and the bound is attained: three elements (`d = 1`), two temporaries at the peak -/
+example : qsortListT (fun a b : Int => decide (a < b)) [3, 1, 2] ⟨3, 0, 0, 3⟩ = some ([1, 2, 3], ⟨3, 4, 4, 3 + 1 + 1⟩) ∧
+    [3, 1, 2].length < 2 ^ (1 + 1) := by decide
+
 /-- **`Array<T>::sort` on a block of counted elements**: for every block holding `l` (any spare capacity `k`), `sort`
 succeeds in place, the block then holds the permutation `l'` the ledgered quicksort computes, and the block's
 live-instance counter after `sort` equals the ledger's: unchanged, with all temporaries destroyed. -/
